@@ -652,7 +652,7 @@ def _memokey_groups(salt):
     ical = _IirCal()
     E, C2, SP, SPH, SE_, SE = stim.envelope, stim.cos2envelope, stim.sam_eq_power, stim.sam_eq_phase, stim._sam_envelope, stim.sam_envelope
     F, FI, LW = stim._calculate_bandlimited_noise_filter, stim._calculate_bandlimited_noise_iir, stim.load_wav
-    fl = 100.0 + salt
+    fl = 100.0 + 0.75 * salt                # stays below the upper edge (200 Hz) for every salt of both tiers
     g = [
         # ---- envelope ----
         [(E, (w, fs), dict(duration=d, rise_time=0.003)), (E, (w, fs), dict(duration=d, start_time=0.003)),
